@@ -137,10 +137,14 @@ class Check(PropertyCheck):
         draw = draw or drawing_chars()
         fails = []
         envs = common.env_tables(texts)
-        res = common.run_impl("lib", ["%d settings b=0,s=0,d=0 %s" % (i, hx(t)) for i, t in enumerate(texts)])
+        # at several scales: the anchor of a text is a point of its cell at every scale
+        scales = [self.rng.choice([8.0, 8.0, 1.0, 0.25, 2.5, 10.0, 0.5, 3.0]) for _ in texts]
+        res = common.run_impl("lib", ["%d settings scale=%s,b=0,s=0,d=0 %s" % (i, backend.f32bits(scales[i]), hx(t))
+                                      for i, t in enumerate(texts)])
         for i, t in enumerate(texts):
             self.evaluations += 1
-            case = {"input": t, "input_hex": hx(t)}
+            case = {"input": t, "input_hex": hx(t), "scale": scales[i]}
+            sc = F(scales[i])
             r = res[str(i)]
             if not r.startswith("ok "):
                 fails.append(Failure("conversion did not return", case))
@@ -187,7 +191,7 @@ class Check(PropertyCheck):
                 if e.tag != "text":
                     continue
                 x, y = F(e.attrs["x"]), F(e.attrs["y"])
-                cx, cy = (x - 2) / 8, (y - 12) / 16
+                cx, cy = x / sc - F(1, 4), (y / sc - F(3, 2)) / 2
                 if cx.denominator != 1 or cy.denominator != 1:
                     bad = ("text is not anchored at the anchor point of a cell", e)
                     break
